@@ -206,6 +206,7 @@ impl HeaderCase {
             "declared": self.declared.iter().map(|(n, v)| json!([n, show(v)])).collect::<Vec<_>>(),
             "explicit": self.explicit.iter().map(|(n, v)| json!([n, show(&String::from_utf8_lossy(v)), hex(v)])).collect::<Vec<_>>(),
             "collision": self.coll_class,
+            "declared_value_classes": self.decl_class,
         })
     }
 }
